@@ -19,6 +19,8 @@ Inductive case :=
   (* a structured description, the variation used, the logical line the harness rendered,
      and what the line compiled to *)
   | CDesc (d : rule_desc) (mask : list bool) (v : rvar) (line : bytes) (o : obs)
+  (* a text together with the description it is meant to denote (witnesses of listed findings) *)
+  | CIntent (d : rule_desc) (text : bytes) (o : obs)
   (* direct calls of the scanners *)
   | CActions (s : bytes) (r : option (list action))
   | CSplit (s : bytes) (r : option (bytes * bytes * bytes))
@@ -95,6 +97,7 @@ Definition ok (c : case) : bool :=
     && opt_eqb (list_eqb rule_eqb) (parse_config [] line) (Some [d])
     && obs_matches (compile_rules [d] []) o
     && obs_matches (compile_config [] line) o
+  | CIntent d text o => obs_matches (compile_rules [d] []) o && obs_matches (compile_config [] text) o
   | CActions s r => opt_eqb (list_eqb action_eqb) (parse_actions s) r
   | CSplit s r =>
     opt_eqb (fun a b => let '(v1, o1, a1) := a in let '(v2, o2, a2) := b in
